@@ -1,4 +1,7 @@
-(* Crash/ExamplesCatchUp.v — checked instances for the catch-up theorem (Crash/ProofsCatchUp.v) on the example history. *)
+(* Crash/ExamplesCatchUp.v — checked instances around finding F13 on the example history: the crash image the code before
+   the repair could leave (quality record of block 5 written alone), what the node restarted from it does when a fork below
+   the pending checkpoint is delivered, and the same stream under the repaired code (no such image exists, every cut
+   converges). *)
 From Coq Require Import List NArith Bool Lia.
 From Verif Require Import Crash.Model Crash.ProofsStore Crash.ProofsInv Crash.ProofsImport Crash.ProofsCrash Crash.Examples
   Crash.ProofsEqv Crash.ProofsShape Crash.ProofsResumeAll Crash.ProofsResume Crash.ProofsFinalized Crash.ProofsQuality Crash.ProofsCatchUp Crash.ProofsDual.
@@ -8,23 +11,20 @@ Open Scope N_scope.
 Lemma ex_invq : InvQ ex_cfg ex_s0.
 Proof. apply (genesis_invq 2 ex_gen); reflexivity. Qed.
 
-Lemma ex_no_reject : no_bft_reject ex_cfg ex_s0 ex_hist = true.
-Proof. vm_compute. reflexivity. Qed.
+(* the image a stop between the two separate writes of the code before the F13 repair left: everything up to the cut before
+   a commit batch, plus that batch's quality record alone *)
+Definition split_window (c : cfg) (s0 : store) (hist : list blk) (k : nat) (id q : N) : store :=
+  apply_batch (crash c s0 hist k) [Put (KQuality id) (VNum q)].
 
-(* cut 19 lies between the quality record and the finalized record of block 5 (which closes the third epoch): the crash image
-   still holds the finalized block written with block 3 (genesis), the uninterrupted node holds block 2 after block 5 and
-   block 4 after block 7; the resumed node holds block 4 as well *)
-Lemma ex_window_cut :
-  cut_in_import ex_cfg ex_s0 ex_hist 19 4 /\
-  has (crash ex_cfg ex_s0 ex_hist 19) (KQuality (bid 5 5)) = true /\
-  finalized ex_cfg (crash ex_cfg ex_s0 ex_hist 19) = bid 0 7 /\
-  finalized ex_cfg (run ex_cfg ex_s0 (firstn 5 ex_hist)) = bid 2 2 /\
-  finalized ex_cfg (run ex_cfg ex_s0 ex_hist) = bid 4 4 /\
-  option_map (finalized ex_cfg) (resume ex_cfg true (crash ex_cfg ex_s0 ex_hist 19) (skipn 4 ex_hist)) = Some (bid 4 4).
-Proof. vm_compute. repeat split; auto; lia. Qed.
+(* the resume clause for the code with two separate writes, at such an image *)
+Definition resume_converges_split_statement : Prop :=
+  forall c s0 hist k i id q f, wf_cfg2 c -> Inv2 c s0 -> wf_hist c s0 hist -> cut_in_import c s0 hist k i ->
+    nth_error (writes_of c s0 hist) k = Some [Put (KQuality id) (VNum q); Put KFinalized (VId f)] ->
+    exists r, resume c true (split_window c s0 hist k id q) (skipn i hist) = Some r /\
+              get_id r KBest = get_id (run c s0 hist) KBest /\
+              (forall x, stored r x = stored (run c s0 hist) x).
 
-(* the premise is needed: deliver, after block 5, a sibling of block 2 (parent block 1).  The uninterrupted node has
-   finalized block 2 and refuses it; the node restarted from cut 19 still holds genesis as finalized and stores it *)
+(* the stream: blocks 1..5, then a sibling of block 2 (parent block 1).  Block 5 closes the third epoch and finalizes block 2 *)
 Definition ex_fork2 : blk :=
   mkBlk (bid 2 9) (bid 1 1) [] [] [] [(31, 300)] [(41, 400)] [KNode 0 33 0 0] [] 2 true true.
 Definition ex_hist_fork : list blk := firstn 5 ex_hist ++ [ex_fork2].
@@ -34,18 +34,57 @@ Proof.
   unfold ex_hist_fork, ex_hist. cbn [firstn app wf_hist]. repeat (split; [wf_blk_compute|]). exact I.
 Qed.
 
-Lemma ex_fork_diverges :
-  cut_in_import ex_cfg ex_s0 ex_hist_fork 19 4 /\
+(* write 17 of the stream is block 5's commit batch: quality 3 and finalized := block 2 together *)
+Lemma ex_fork_facts :
+  cut_in_import ex_cfg ex_s0 ex_hist_fork 17 4 /\
+  nth_error (writes_of ex_cfg ex_s0 ex_hist_fork) 17 = Some [Put (KQuality (bid 5 5)) (VNum 3); Put KFinalized (VId (bid 2 2))] /\
+  (* the uninterrupted node refuses the sibling (errBFTRejected) *)
   no_bft_reject ex_cfg ex_s0 ex_hist_fork = false /\
   stored (run ex_cfg ex_s0 ex_hist_fork) (bid 2 9) = false /\
-  option_map (fun r => stored r (bid 2 9)) (resume ex_cfg true (crash ex_cfg ex_s0 ex_hist_fork 19) (skipn 4 ex_hist_fork)) = Some true.
+  finalized ex_cfg (run ex_cfg ex_s0 ex_hist_fork) = bid 2 2 /\
+  (* the node restarted from the split image still holds genesis as finalized and stores it *)
+  finalized ex_cfg (split_window ex_cfg ex_s0 ex_hist_fork 17 (bid 5 5) 3) = bid 0 7 /\
+  option_map (fun r => stored r (bid 2 9))
+    (resume ex_cfg true (split_window ex_cfg ex_s0 ex_hist_fork 17 (bid 5 5) 3) (skipn 4 ex_hist_fork)) = Some true.
 Proof. vm_compute. repeat split; auto; lia. Qed.
 
-(* the combined write sequence of block 3 (it becomes best): account batch, LOG, index batch, block bulk, quality, finalized *)
+Theorem f13_split_write_refuted : ~ resume_converges_split_statement.
+Proof.
+  intro H.
+  destruct ex_fork_facts as (Hcut & Hnth & _ & Hu & _ & _ & Hr).
+  destruct (H ex_cfg ex_s0 ex_hist_fork 17%nat 4%nat (bid 5 5) 3 (bid 2 2) ex_wf_cfg2 ex_inv2 ex_fork_wf_hist Hcut Hnth) as (r & Er & _ & Hs).
+  rewrite Er in Hr. simpl in Hr. inversion Hr as [Hr']. rewrite Hs, Hu in Hr'. discriminate.
+Qed.
+
+(* under the repaired code the same stream converges at EVERY cut (no premise about refused blocks) *)
+Lemma ex_fork_converges :
+  forallb (fun k =>
+    match resume ex_cfg true (crash ex_cfg ex_s0 ex_hist_fork k) (skipn (import_of_cut ex_cfg ex_s0 ex_hist_fork k) ex_hist_fork) with
+    | Some s' => same_outcome ex_cfg true s' (run ex_cfg ex_s0 ex_hist_fork) && negb (stored s' (bid 2 9))
+    | None => false
+    end) (seq 0 (S (length (writes_of ex_cfg ex_s0 ex_hist_fork)))) = true /\
+  length (writes_of ex_cfg ex_s0 ex_hist_fork) = 18%nat.
+Proof. vm_compute. auto. Qed.
+
+(* InvQ along the example run; the split image of block 5's commit lags behind the completed import *)
+Lemma ex_invq_lag :
+  InvQ ex_cfg ex_s0 /\ InvQ ex_cfg (run ex_cfg ex_s0 ex_hist) /\
+  Lag ex_cfg (split_window ex_cfg ex_s0 ex_hist 17 (bid 5 5) 3) (run ex_cfg ex_s0 (firstn 5 ex_hist)).
+Proof.
+  split; [exact ex_invq|]. split; [apply run_invq; auto using ex_wf_cfg2, ex_inv2, ex_invq, ex_wf_hist|].
+  assert (E : run ex_cfg ex_s0 (firstn 5 ex_hist)
+              = apply_batch (split_window ex_cfg ex_s0 ex_hist 17 (bid 5 5) 3) [Put KFinalized (VId (bid 2 2))]) by (vm_compute; reflexivity).
+  constructor.
+  - rewrite E. apply eqv_nf_put_r, eqv_nf_refl.
+  - vm_compute. reflexivity.
+  - exists 0. vm_compute. reflexivity.
+Qed.
+
+(* the combined write sequence of block 3 (it becomes best): account batch, LOG, index batch, block bulk, quality + finalized *)
 Lemma ex_dual :
   let s := run ex_cfg ex_s0 (firstn 2 ex_hist) in
   becomes_best ex_cfg s (ex_blk 3 []) = true /\
-  map (fun x => match x with WLog => true | WMain _ => false end) (dual_steps ex_cfg s (ex_blk 3 [])) = [false; true; false; false; false; false] /\
+  map (fun x => match x with WLog => true | WMain _ => false end) (dual_steps ex_cfg s (ex_blk 3 [])) = [false; true; false; false; false] /\
   stored (apply_writes s (mains (firstn 4 (dual_steps ex_cfg s (ex_blk 3 []))))) (bid 3 3) = true /\
   stored (apply_writes s (mains (firstn 3 (dual_steps ex_cfg s (ex_blk 3 []))))) (bid 3 3) = false.
 Proof. vm_compute. repeat split. Qed.
